@@ -235,31 +235,56 @@ Definition cmtf (shape3 : list nat) (m : nat) (spec : rspec) : res (list (list n
 
 (* ------------------------------------------------------------------ loop skeleton: normalisation *)
 (* The three CP drivers share this control flow (after the repair fe25b5c):
-     state <- initialize_cp (normalised iff normalize_factors and init is not a user CP tensor)
+     state <- initialize_cp       (normalised iff normalize_factors and init is not a user CP tensor)
+     [parafac only: if every mode is fixed: return state]
      for iteration in range(n_iter_max):
          sweep                                   (includes in-sweep normalisations in the nn variants)
+         [parafac only: if callback(...) is True: break]
          if tol and iteration >= 1 and <converged>:  [normalise if requested]; break
          [normalise if requested]
      return state
-   The data-dependent test <converged> is abstracted by an explicit decision sequence. *)
+   The data-dependent tests (callback's answer, <converged>) are abstracted by an explicit decision
+   sequence: one pair (callback asked to stop, convergence test fired) per executed sweep. *)
 Inductive init_kind := InitRandom | InitSvd | InitUser.
 Section Skeleton.
   Variable St : Type.
   Variables (sweep normalise : St -> St).
+  Definition norm_if (nf : bool) (s : St) : St := if nf then normalise s else s.
   Definition init_state (nf : bool) (ik : init_kind) (s0 : St) : St :=
-    match ik with InitUser => s0 | _ => if nf then normalise s0 else s0 end.
-  Fixpoint cp_loop (nf tol_set : bool) (it fuel : nat) (decisions : list bool) (s : St) : St :=
+    match ik with InitUser => s0 | _ => norm_if nf s0 end.
+  Fixpoint cp_loop (nf tol_set : bool) (it fuel : nat) (decisions : list (bool * bool)) (s : St) : St :=
     match fuel with
     | O => s
     | S fuel' =>
         let s1 := sweep s in
-        let s2 := if nf then normalise s1 else s1 in
-        if tol_set && (1 <=? it) && hd false decisions then s2
-        else cp_loop nf tol_set (S it) fuel' (tl decisions) s2
+        let d := hd (false, false) decisions in
+        if fst d then s1                                              (* `if retVal is True: break` *)
+        else if tol_set && (1 <=? it) && snd d then norm_if nf s1     (* convergence exit *)
+        else cp_loop nf tol_set (S it) fuel' (tl decisions) (norm_if nf s1)
     end.
-  Definition cp_run (nf tol_set : bool) (ik : init_kind) (n_iter_max : nat) (decisions : list bool) (s0 : St) : St :=
-    cp_loop nf tol_set 0 n_iter_max decisions (init_state nf ik s0).
-  (* the pre-repair control flow (break BEFORE the end-of-sweep normalisation), kept for the regression witness *)
+  Definition cp_run (nf tol_set : bool) (ik : init_kind) (all_fixed : bool) (n_iter_max : nat)
+             (decisions : list (bool * bool)) (s0 : St) : St :=
+    let s := init_state nf ik s0 in
+    if all_fixed then s else cp_loop nf tol_set 0 n_iter_max decisions s.
+
+  (* the candidate repair (build/fix_candidates/C08_normalize_every_exit.diff): a user initialisation is
+     normalised like the others, and the callback exit normalises like the convergence exit *)
+  Fixpoint cp_loop_fix (nf tol_set : bool) (it fuel : nat) (decisions : list (bool * bool)) (s : St) : St :=
+    match fuel with
+    | O => s
+    | S fuel' =>
+        let s1 := sweep s in
+        let d := hd (false, false) decisions in
+        if fst d then norm_if nf s1
+        else if tol_set && (1 <=? it) && snd d then norm_if nf s1
+        else cp_loop_fix nf tol_set (S it) fuel' (tl decisions) (norm_if nf s1)
+    end.
+  Definition cp_run_fix (nf tol_set : bool) (ik : init_kind) (all_fixed : bool) (n_iter_max : nat)
+             (decisions : list (bool * bool)) (s0 : St) : St :=
+    let s := norm_if nf s0 in
+    if all_fixed then s else cp_loop_fix nf tol_set 0 n_iter_max decisions s.
+
+  (* the control flow before fe25b5c (break BEFORE the end-of-sweep normalisation), kept for the regression witness *)
   Fixpoint cp_loop_pinned (nf tol_set : bool) (it fuel : nat) (decisions : list bool) (s : St) : St :=
     match fuel with
     | O => s
@@ -269,3 +294,32 @@ Section Skeleton.
         else cp_loop_pinned nf tol_set (S it) fuel' (tl decisions) (if nf then normalise s1 else s1)
     end.
 End Skeleton.
+
+(* ------------------------------------------------------------------ the skeleton run on event traces *)
+(* EvU m: the factor of mode m is replaced (one unfolding_dot_khatri_rao call per update in all three drivers);
+   EvN: cp_normalize is applied to the current (weights, factors). *)
+Inductive ev := EvU (mode : nat) | EvN.
+Inductive driver := Parafac | NnMu | NnHals.
+Definition is_nn (d : driver) : bool := match d with Parafac => false | _ => true end.
+Definition memb (x : nat) (l : list nat) : bool := existsb (Nat.eqb x) l.
+(* the modes that are updated: parafac / non_negative_parafac refuse to fix the last mode, HALS accepts it *)
+Definition modes_list (d : driver) (n_modes : nat) (fixed : list nat) : list nat :=
+  let fixed' := match d with NnHals => fixed | _ => filter (fun m => negb (m =? n_modes - 1)) fixed end in
+  filter (fun m => negb (memb m fixed')) (seq 0 n_modes).
+(* the nn drivers normalise after every mode update except the last of the sweep *)
+Definition trace_sweep (in_sweep_norm : bool) (modes : list nat) (s : list ev) : list ev :=
+  s ++ flat_map (fun m => EvU m :: (if in_sweep_norm && negb (m =? last modes 0) then [EvN] else [])) modes.
+Fixpoint nlist_eqb (a b : list nat) : bool :=
+  match a, b with [], [] => true | x :: a', y :: b' => (x =? y) && nlist_eqb a' b' | _, _ => false end.
+(* parafac: `if fixed_modes == list(range(ndim)): return the initialisation` *)
+Definition all_fixed (d : driver) (n_modes : nat) (fixed : list nat) : bool :=
+  match d with Parafac => nlist_eqb fixed (seq 0 n_modes) | _ => false end.
+Definition trace_run (d : driver) (nf tol_set : bool) (ik : init_kind) (n_modes : nat) (fixed : list nat)
+           (n_iter_max : nat) (decisions : list (bool * bool)) : list ev :=
+  cp_run (list ev) (trace_sweep (nf && is_nn d) (modes_list d n_modes fixed)) (fun s => s ++ [EvN])
+         nf tol_set ik (all_fixed d n_modes fixed) n_iter_max decisions [].
+(* what the property is about: the schedule of factor updates, whether a normalisation follows the last update
+   (no update: whether any normalisation happened), whether any normalisation happened at all *)
+Definition updates (t : list ev) : list nat := flat_map (fun e => match e with EvU m => [m] | EvN => [] end) t.
+Definition ends_normalised (t : list ev) : bool := match rev t with EvN :: _ => true | _ => false end.
+Definition any_normalise (t : list ev) : bool := existsb (fun e => match e with EvN => true | _ => false end) t.
